@@ -107,7 +107,15 @@ META = {
         "that attaches it to the caller's current node and discharges only some cases of a flag it receives as a parameter, every "
         "caller must sweep the node that was current at the call (or an ancestor) in the remaining cases, with the flag translated "
         "through the call's arguments; and run_directive clears the captions AND titles below the nodes a directive returns. "
-        "Keys name the module and the kind of element, not the function, so that moving the code into a helper keeps the key."
+        "Keys name the module and the kind of element, not the function, so that moving the code into a helper keeps the key. "
+        "R10: the tag a call site declares is the tag that is emitted. Every function or lambda (incl. the `warning` callbacks both "
+        "parsers hand to merge_file_level) that is handed a MystWarnings member in some parameter at a call site uses that parameter "
+        "as the subtype of an emission (through .value, conditional expressions, once-assigned locals, or a helper it passes it to); "
+        "a wrapper that ignores the parameter and emits under fixed members is accepted only if that fixed tag equals every member "
+        "declared at its call sites - otherwise the warning leaves under another tag than the one its call site (and the other front "
+        "end's callback) names. Functions that receive members but emit nothing are listed, not judged. "
+        "R5/R6 addendum: when the renderer wrapper stands a node of its own in for a missing parent (`append_to=self.X if append_to is "
+        "None else append_to`), R6 accepts the forwarding and R5 judges every wrapper call without append_to as append_to=<receiver>.X."
     ),
     "not_decided": (
         "which further element classes third-party collectors read as text (R9's table lists those docutils and Sphinx itself read: "
@@ -2203,13 +2211,17 @@ def _observes_children(test: ast.expr, text: str) -> ast.AST | None:
     return None
 
 
-def _append_target_observed(fi: FunctionInfo, call: ast.Call) -> tuple[ast.AST, str] | None:
+def _append_target_observed(fi: FunctionInfo, call: ast.Call, implicit: ast.expr | None = None) -> tuple[ast.AST, str] | None:
     """``create_warning(..., append_to=X)`` followed, on some path, by a condition on X's children: the
     condition's outcome depends on whether the message node was appended, i.e. on suppression."""
     a = kwarg(call, "append_to")
-    if a is None or is_const(a, None) or fi.is_lambda:
+    if (a is None or is_const(a, None)) and implicit is not None and isinstance(call.func, ast.Attribute) and not fi.is_lambda:
+        # the wrapper stands `<receiver>.<attr>` in for a missing parent
+        text = unparse(call.func.value) + unparse(implicit)[len("self"):]
+    elif a is None or is_const(a, None) or fi.is_lambda:
         return None
-    text = unparse(a)
+    else:
+        text = unparse(a)
     root = text.split(".")[0].split("[")[0]
     try:
         cfg = get_cfg(fi)
@@ -2250,12 +2262,13 @@ def _append_target_observed(fi: FunctionInfo, call: ast.Call) -> tuple[ast.AST, 
 def r5_return_value_unused(corpus: Corpus, rep: Report, tier: str):
     rep.rule("C14.R5", "the value returned by create_warning is only discarded, returned by a wrapper, or placed in a list, and the node given as append_to is not tested for children afterwards; nothing else depends on the warning")
     em = _emissions(corpus)
+    implicit = _wrapper_default_parent(em)
     for fi, call, kind in em.sites:
         if kind not in ("create_warning()", "renderer.create_warning()"):
             continue
         k = f"{stmt_key(fi, call, 90)}"
         status, site, what = _judge_result(em, fi, call, 0)
-        obs = _append_target_observed(fi, call)
+        obs = _append_target_observed(fi, call, implicit if kind == "renderer.create_warning()" else None)
         if obs is not None:
             rep.violation("C14.R5", f"{fi.fq}|append_to={obs[1]} tested after create_warning|{short(obs[0], 60)}", fi.module.site(obs[0]), f"`{short(obs[0], 50)}` is evaluated after the message node may have been appended to `{obs[1]}` (append_to): its outcome, and what it guards, depends on whether the warning was suppressed")
         if status == "ok":
@@ -2514,6 +2527,10 @@ def r6_tag_format(corpus: Corpus, rep: Report, tier: str):
             problems.append(f"`{p}` is not forwarded: the caller's value is ignored")
         elif not _is_name(bound[p], p):
             other = bound[p]
+            if p == "append_to" and _none_substitution(other, p) is not None and is_const(_param_default(m, p), None):
+                # the caller's node is forwarded unchanged; only "no parent given" is replaced by a node of the renderer
+                # (R5 judges the call sites that rely on it as append_to=<that node>)
+                continue
             if isinstance(other, ast.Name) and other.id in m.params:
                 problems.append(f"`{p}` receives the wrapper's `{other.id}`")
             else:
@@ -2527,6 +2544,32 @@ def r6_tag_format(corpus: Corpus, rep: Report, tier: str):
         rep.error(R, f"{m.qualname}: forwarding not understood: " + "; ".join(unknown))
     else:
         rep.ok(R, km, m.site())
+
+
+def _none_substitution(e: ast.expr, p: str) -> ast.expr | None:
+    """``D if p is None else p`` / ``p if p is not None else D``: the stand-in D, else None."""
+    if not isinstance(e, ast.IfExp) or not isinstance(e.test, ast.Compare) or len(e.test.ops) != 1:
+        return None
+    t = e.test
+    if not (_is_name(t.left, p) and is_const(t.comparators[0], None)):
+        return None
+    if isinstance(t.ops[0], ast.Is) and _is_name(e.orelse, p):
+        return e.body
+    if isinstance(t.ops[0], ast.IsNot) and _is_name(e.body, p):
+        return e.orelse
+    return None
+
+
+def _wrapper_default_parent(em: "Emissions") -> ast.expr | None:
+    """The node the renderer wrapper attaches the message to when the caller names none (``self.<attr>``), if any."""
+    m = em.cw_meth
+    for c in m.local_nodes():
+        if isinstance(c, ast.Call) and em_resolves_to(em.c, c, m, em.cw_func):
+            a = kwarg(c, "append_to")
+            d = _none_substitution(a, "append_to") if a is not None else None
+            if d is not None and (dotted(d) or "").startswith("self.") and is_const(_param_default(m, "append_to"), None):
+                return d
+    return None
 
 
 def em_resolves_to(corpus: Corpus, call: ast.Call, fi: FunctionInfo, target: FunctionInfo) -> bool:
@@ -3644,7 +3687,109 @@ def r9_collector_read_elements(corpus: Corpus, rep: Report, tier: str):
             rep.ok(R, k, rd.module.site(lp), "every caption and title below the returned nodes is cleared of message nodes")
 
 
-RULES = [r1_typed_emission, r2_untyped_closed_list, r3_no_member_loses_last_site, r4_suppression_confined, r5_return_value_unused, r6_tag_format, r7_documented_catalogue, r8_messages_are_not_content, r9_collector_read_elements]
+# -- R10 ----------------------------------------------------------------------------------
+def _subtype_roots(e: ast.expr | None, h: FunctionInfo, depth: int = 0) -> set[str]:
+    """Parameters of ``h`` whose value is (one alternative of) the expression: through .value, conditional
+    expressions and once-assigned locals."""
+    if e is None or depth > 6:
+        return set()
+    if isinstance(e, ast.Attribute) and e.attr == "value":
+        return _subtype_roots(e.value, h, depth + 1)
+    if isinstance(e, ast.IfExp):
+        return _subtype_roots(e.body, h, depth + 1) | _subtype_roots(e.orelse, h, depth + 1)
+    if isinstance(e, ast.Name):
+        if e.id in h.params:
+            return {e.id}
+        if h.is_lambda:
+            return set()
+        defs = [n for n in h.local_nodes() if isinstance(n, ast.Assign) and any(_is_name(t, e.id) for t in n.targets)]
+        if len(defs) == 1:
+            return _subtype_roots(defs[0].value, h, depth + 1)
+    return set()
+
+
+def _declared_tag_fate(em: Emissions, resolver, h: FunctionInfo, p: str, depth: int = 0):
+    """What becomes of the catalogue member a caller hands to parameter ``p`` of ``h``:
+    ("emitted",) - it is the subtype of an emission; ("fixed", [(site, resolutions)]) - h emits, but under tags
+    that do not depend on p; ("none",) - h does not emit with it (not a warning wrapper as far as can be seen)."""
+    own = [(fi, call, kind) for fi, call, kind in em.sites if fi is h]
+    for _, call, kind in own:
+        if p in _subtype_roots(em.subtype_arg(call, kind), h):
+            return ("emitted",)
+    own_calls = {id(c) for _, c, _ in own}
+    if depth < 3:
+        body = h.node.body if h.is_lambda else h.node
+        for c in (calls_in(body) if h.is_lambda else [n for n in h.local_nodes() if isinstance(n, ast.Call)]):
+            if id(c) in own_calls:
+                continue
+            try:
+                ts = resolver(c, h)
+            except Exception:
+                ts = []
+            for h2 in ts:
+                if h2.fq in em.cw_private or h2 is h:
+                    continue
+                bound = _bind_call(c, h2)
+                if bound is None:
+                    continue
+                for p2, a in bound.items():
+                    if p in _subtype_roots(a, h) and _declared_tag_fate(em, resolver, h2, p2, depth + 1)[0] == "emitted":
+                        return ("emitted",)
+    if own:
+        return ("fixed", [(h.module.site(call), em.resolve(em.subtype_arg(call, kind), h)) for _, call, kind in own])
+    return ("none",)
+
+
+@rule("C14.R10")
+def r10_declared_tag_is_emitted(corpus: Corpus, rep: Report, tier: str):
+    rep.rule("C14.R10", "a catalogue member handed to a warning wrapper / callback (the tag the call site declares) is the subtype the wrapper emits, in every function bound to it (both front ends), or the wrapper's fixed tag equals every declared one")
+    R = "C14.R10"
+    em = _emissions(corpus)
+    resolver = _resolver_of(corpus)
+    callers = _callers(corpus)
+    for h in corpus.all_functions():
+        if h.fq in em.cw_private:
+            continue  # create_warning and its private helpers: R4 / R6
+        declared: dict[str, dict[str, str]] = {}
+        for cfi, call in callers.get(h.fq, []):
+            bound = _bind_call(call, h)
+            if bound is None:
+                continue
+            for p, a in bound.items():
+                d = dotted(a)
+                if d and d.startswith("MystWarnings.") and d.count(".") == 1:
+                    res = em.resolve(a, cfi)
+                    if len(res) == 1 and res[0][0] == "member":
+                        declared.setdefault(p, {}).setdefault(res[0][1], cfi.module.site(call))
+        for p, decl in sorted(declared.items()):
+            fate = _declared_tag_fate(em, resolver, h, p)
+            k = f"{h.fq}|declared tag `{p}` is the emitted subtype"
+            if fate[0] == "emitted":
+                rep.ok(R, k, h.site(), f"{len(decl)} declared member(s) forwarded to the emission")
+            elif fate[0] == "none":
+                rep.listed(R, k, h.site(), "receives catalogue members but emits nothing with them (not a warning wrapper)")
+            else:
+                emitted: set[str] = set()
+                unknown = []
+                for site, res in fate[1]:
+                    for status, detail in res:
+                        if status in ("member", "value-of-member"):
+                            emitted.add(detail)
+                        else:
+                            unknown.append(f"{site}: {detail}")
+                if unknown:
+                    rep.error(R, f"{h.fq}: ignores the declared tag `{p}` and the tag it emits instead is not understood: " + "; ".join(unknown[:3]))
+                    continue
+                wrong = {m: s for m, s in decl.items() if emitted != {m}}
+                if wrong:
+                    m0 = sorted(wrong)[0]
+                    rep.violation(R, k, h.site(), f"`{p}` is ignored: the warning declared as MystWarnings.{m0} at {wrong[m0]}" + (f" (and {len(wrong) - 1} more)" if len(wrong) > 1 else "") + f" is emitted under {sorted('MystWarnings.' + x for x in emitted)}; another function bound to the same call site may still emit the declared tag, so the front ends disagree and suppressing the declared tag does not remove it")
+                else:
+                    rep.ok(R, k, h.site(), "the fixed tag equals every declared one")
+    rep.expect_min(R, 1, "wrappers / callbacks that receive a catalogue member (the renderer wrapper and the two front-matter callbacks on the pinned tree; the callbacks drop out when they reach merge_file_level through an intermediate function the call graph does not follow)")
+
+
+RULES = [r10_declared_tag_is_emitted, r1_typed_emission, r2_untyped_closed_list, r3_no_member_loses_last_site, r4_suppression_confined, r5_return_value_unused, r6_tag_format, r7_documented_catalogue, r8_messages_are_not_content, r9_collector_read_elements]
 
 
 def mutants(corpus: Corpus):
@@ -4105,4 +4250,25 @@ def mutants(corpus: Corpus):
         out.append(Mutant("c14-wrapper-drops-wtype", "C14.R6", base.rel, splice(base.src, c, ast.unparse(c2)), expect="forwards arguments"))
     else:
         out.append(("c14-wrapper-drops-wtype", "the renderer wrapper has no wtype= keyword"))
+    # 11. (seed class) a front-matter callback ignores the tag it is handed and emits a fixed, different one
+    em = _emissions(corpus)
+    mfl = corpus.func("config.main:merge_file_level")
+    n_cb = 0
+    for h in corpus.all_functions():
+        if not any(cfi is mfl for cfi, _ in _callers(corpus).get(h.fq, [])):
+            continue
+        for fi, call, kind in em.sites:
+            sub = em.subtype_arg(call, kind)
+            if fi is h and isinstance(sub, ast.Name) and sub.id in h.params and "MystWarnings" in h.module.imports:
+                n_cb += 1
+                out.append(Mutant(f"c14-callback-fixed-tag-{h.module.name.split('.')[-1].strip('_')}", "C14.R10", h.module.rel, splice(h.module.src, sub, "MystWarnings.NOT_SUPPORTED"), expect="is the emitted subtype", canary=False))
+    if not n_cb:
+        out.append(("c14-callback-fixed-tag", "no callback of merge_file_level forwards a parameter as subtype in a module that imports MystWarnings"))
+    # 11b. the renderer wrapper emits everything under one member
+    c = find_node(f, lambda n: isinstance(n, ast.Call) and dotted(n.func) == "create_warning")
+    sub = arg_or_kw(c, 2, "subtype") if c is not None else None
+    if isinstance(sub, ast.Name):
+        out.append(Mutant("c14-wrapper-fixed-tag", "C14.R10", base.rel, splice(base.src, sub, "MystWarnings.RENDER_METHOD"), expect="is the emitted subtype"))
+    else:
+        out.append(("c14-wrapper-fixed-tag", "the renderer wrapper does not forward a name as subtype"))
     return out
